@@ -268,7 +268,29 @@ func (c *Ctx) randomActionOp(m *channel.ActionMachine) aOp {
 	g := c.G
 	pick := func(xs ...string) string { return xs[g.R.Intn(len(xs))] }
 	var kind string
-	if g.R.Intn(100) < 65 {
+	// half of the steps in a signing round work towards completing it (next missing signature, then the
+	// matching enable), so that update rounds complete and histories get several rounds deep
+	if stg := m.StagingTX(); (m.Phase() == channel.Signing || m.Phase() == channel.InitSigning) && stg.State != nil && g.R.Intn(2) == 0 {
+		missing := -1
+		for i, sg := range stg.Sigs {
+			if sg == nil && (missing < 0 || i == c.Me) {
+				missing = i
+			}
+		}
+		switch {
+		case missing == c.Me:
+			return aOp{Kind: "Sig", Sh: Op{Kind: "Sig", Class: "-"}}
+		case missing >= 0:
+			return aOp{Kind: "AddSig", Sh: Op{Kind: "AddSig", Idx: missing, Sig: c.Sign(missing, stg.State), Class: "valid"}}
+		case m.Phase() == channel.InitSigning:
+			return aOp{Kind: "EnableInit", Sh: Op{Kind: "EnableInit", Class: "-"}}
+		case stg.State.IsFinal:
+			return aOp{Kind: "EnableFinal", Sh: Op{Kind: "EnableFinal", Class: "-"}}
+		default:
+			return aOp{Kind: "EnableUpdate", Sh: Op{Kind: "EnableUpdate", Class: "-"}}
+		}
+	}
+	if g.R.Intn(100) < 80 {
 		switch m.Phase() {
 		case channel.InitActing:
 			kind = "Add"
@@ -310,13 +332,19 @@ func (c *Ctx) randomActionOp(m *channel.ActionMachine) aOp {
 	switch {
 	case kind == "Add":
 		o.Idx = g.R.Intn(c.N)
-		switch g.R.Intn(12) {
-		case 0:
+		// answers of the app that matter in the phase the machine is in are chosen more often: unusable
+		// initial allocations before Init, refusals / final / invalid successors before Update
+		special := []byte{0xD0, 0xD1, 0xD2, 0xD3}
+		if m.Phase() != channel.InitActing {
+			special = []byte{0xC0, 0xC1, 0xC2, 0xC2, 0xC3}
+		}
+		switch x := g.R.Intn(12); {
+		case x == 0:
 			o.Code = pickByte(g, 0xE0, 0xE1, 0xE2)
-		case 1:
-			o.Code = pickByte(g, 0xD0, 0xD1, 0xD2, 0xD3)
-		case 2:
-			o.Code = pickByte(g, 0xC0, 0xC1, 0xC2, 0xC3)
+		case x <= 3:
+			o.Code = pickByte(g, special...)
+		case x == 4:
+			o.Code = pickByte(g, 0xD0, 0xD1, 0xD2, 0xD3, 0xC0, 0xC1, 0xC2, 0xC3)
 		default:
 			o.Code = byte(1 + g.R.Intn(0x7E))
 		}
@@ -475,10 +503,28 @@ func (r *runner) actionSequences(count, maxLen, perFile int) {
 			panic(err)
 		}
 		ops := make([]aOp, 0, L)
-		for i := 0; i < L; i++ {
-			o := c.randomActionOp(twin)
+		push := func(o aOp) {
 			ops = append(ops, o)
 			c.applyAction(twin, o)
+		}
+		// most sequences start with the opening carried out correctly, so that the random part works on a
+		// funded machine (update rounds, disputes), where random choices alone seldom arrive
+		if r.g.R.Intn(10) < 7 {
+			for i := 0; i < c.N; i++ {
+				push(aOp{Kind: "Add", Idx: i, Code: byte(1 + r.g.R.Intn(0x7E))})
+			}
+			push(aOp{Kind: "AInit"})
+			push(aOp{Kind: "Sig", Sh: Op{Kind: "Sig", Class: "-"}})
+			for i := 0; i < c.N; i++ {
+				if i != c.Me && twin.StagingState() != nil {
+					push(aOp{Kind: "AddSig", Sh: Op{Kind: "AddSig", Idx: i, Sig: c.Sign(i, twin.StagingState()), Class: "valid"}})
+				}
+			}
+			push(aOp{Kind: "EnableInit", Sh: Op{Kind: "EnableInit", Class: "-"}})
+			push(aOp{Kind: "SetFunded", Sh: Op{Kind: "SetFunded", Class: "-"}})
+		}
+		for i := 0; i < L; i++ {
+			push(c.randomActionOp(twin))
 		}
 		cases = append(cases, r.execActionCase(c, app, ops, fmt.Sprintf("TA/n%d/action", c.N)))
 		if len(cases) >= perFile {
